@@ -65,8 +65,48 @@ def _lib_matrix(eq, names, els):
     return True, E, [float(tot[lib_els.index(e)]) for e in els]
 
 
+def _forms(case):
+    """The ways this case's Equilibrium objects are constructed.  A form is
+    {'model': 'dict' | 'list' | 'thermdat', 'net': key order of the network dict,
+     'mlist': order of the model list (None for dict / thermdat), 'extra': the list also holds
+     a species that is not in the network}.  The first form is the reference."""
+    N = len(case.get('names') or case['species'])
+    ident = list(range(N))
+    if case.get('forms'):
+        return case['forms']
+    forms = [{'model': 'thermdat' if case['kind'] == 'thermdat' else 'dict', 'net': ident,
+              'mlist': None, 'extra': False}]
+    perm = case.get('perm')
+    if perm and sorted(perm) == ident and perm != ident:      # replay files written before forms
+        forms.append({'model': forms[0]['model'] if case['kind'] == 'thermdat' else 'list',
+                      'net': list(perm), 'mlist': None if case['kind'] == 'thermdat' else list(perm),
+                      'extra': False})
+    return forms
+
+
+def make_forms(case, rnd, full):
+    """Every accepted form of `model` and several key orders of `network` (stored in the case
+    so that a replay rebuilds exactly the same objects)."""
+    N = len(case.get('names') or case['species'])
+    ident = list(range(N))
+    perm = list(case.get('perm') or ident)
+    if perm == ident and N > 1:
+        perm = ident[1:] + ident[:1]
+    rev = ident[::-1]
+    thermdat = case['kind'] == 'thermdat'
+    first = {'model': 'thermdat' if thermdat else 'dict', 'net': ident, 'mlist': None, 'extra': False}
+    others = [
+        {'model': 'thermdat' if thermdat else 'dict', 'net': perm, 'mlist': None, 'extra': False},
+        {'model': 'list', 'net': perm, 'mlist': perm, 'extra': False},       # list in network order
+        {'model': 'list', 'net': rev, 'mlist': perm, 'extra': True},         # shuffled list + extra species
+    ]
+    differs = {'model': 'list', 'net': ident, 'mlist': rev, 'extra': thermdat}   # list reversed w.r.t. network
+    case['forms'] = [first, differs] + (others if full else [others[rnd.randrange(len(others))]])
+    return case
+
+
 def _build(case):
-    """-> (names, els, E, feed, factory(order) -> Equilibrium, gfun(T) -> [g])"""
+    """-> (names, els, E, feed, factory(form) -> Equilibrium, gfun(T) -> [g])"""
     from pmutt.equilibrium import Equilibrium
     els = list(case['elements'])
     if case['kind'] == 'thermdat':
@@ -75,25 +115,38 @@ def _build(case):
         names = list(case['names'])
         E = [[THERMDAT_FORMULAS[nm].get(e, 0) for e in els] for nm in names]
         model = read_thermdat(path, 'dict')
-
-        def factory(order):
-            net = {names[i]: case['feed'][i] for i in order}
-            return Equilibrium.from_thermdat(path, net)
-
-        def gfun(T):
-            return [float(model[nm].get_GoRT(T=T)) for nm in names]
+        species = [model[nm] for nm in names]
+        extras = [model[nm] for nm in model if nm not in names]
     else:
         species = L.make_species(case['species'])
         names = [s['name'] for s in case['species']]
         E = [[int(s['formula'].get(e, 0)) for e in els] for s in case['species']]
+        x = dict(case['species'][0])
+        x['name'] = 'XTRA_not_in_network'
+        extras = L.make_species([x])
 
-        def factory(order):
-            net = {names[i]: case['feed'][i] for i in order}
-            return Equilibrium(model=[species[i] for i in order], network=net)
+    def factory(form):
+        net = {names[i]: case['feed'][i] for i in form['net']}      # what the user states: name -> amount
+        if form['model'] == 'thermdat':
+            return Equilibrium.from_thermdat(os.path.join(core.REPO, L.THERMDAT), net)
+        if form['model'] == 'dict':
+            return Equilibrium(model={names[i]: species[i] for i in range(len(names))}, network=net)
+        lst = [species[i] for i in form['mlist']]
+        if form.get('extra'):
+            lst = extras[:1] + lst + extras[1:]
+        return Equilibrium(model=lst, network=net)
 
-        def gfun(T):
-            return [float(sp.get_GoRT(T=T)) for sp in species]
+    def gfun(T):
+        return [float(sp.get_GoRT(T=T)) for sp in species]
     return names, els, E, list(case['feed']), factory, gfun
+
+
+def _list_differs(form, feed):
+    """model is a list whose order differs from the network's key order, and the feed is not
+    symmetric under that permutation (the amounts would land on other species)."""
+    if form['model'] != 'list':
+        return False
+    return [feed[i] for i in form['net']] != [feed[i] for i in form['mlist']]
 
 
 def _solve_event(rec, eq, names, E, fed, gfun, T, P, key, first, forced):
@@ -147,15 +200,18 @@ def _execute(case, rec):
     fed = [x > 0 for x in feed]
     N = len(names)
     events, mism, infos = [], [], []
-    orders = [list(range(N))]
-    if case.get('perm') and sorted(case['perm']) == list(range(N)) and case['perm'] != orders[0]:
-        orders.append(list(case['perm']))
+    forms = _forms(case)
     exp = case.get('expect')
-    for oi, order in enumerate(orders):
-        obs = L.observe_call(rec, lambda: factory(order))
+    for oi, form in enumerate(forms):
+        fname = '%s%s/net%s' % (form['model'], '+extra' if form.get('extra') else '',
+                                'A' if form['net'] == list(range(N)) else 'P')
+        differs = _list_differs(form, feed)
+        obs = L.observe_call(rec, lambda: factory(form))
         raised = obs['how'] == 'raise'
         ev = {'ev': 'init', 'first': oi == 0, 'E': E, 'feed': [_dec_feed(x) for x in feed],
-              'raised': raised, 'libEint': False, 'libE': [], 'libtot': []}
+              'raised': raised, 'libEint': False, 'libE': [], 'libtot': [], 'form': fname,
+              'listdiffers': differs}
+        infos.append({'phase': 'form', 'form': form['model'], 'listdiffers': differs, 'raised': raised})
         if raised:
             infos.append({'phase': 'init', 'exc': obs['exc']})
             events.append(ev)
@@ -167,7 +223,7 @@ def _execute(case, rec):
         if exp is not None:
             want_tot = [float(v) for v in exp['tot']]
             if libE != exp['E'] or libtot != want_tot:
-                mism.append({'what': 'ReplayInit', 'order': order, 'expected': [exp['E'], want_tot],
+                mism.append({'what': 'ReplayInit', 'form': form, 'expected': [exp['E'], want_tot],
                              'got': [libE, libtot]})
         if case['kind'] == 'beh':
             for k, step in enumerate(case['steps']):
@@ -179,6 +235,7 @@ def _execute(case, rec):
         for k, (T, P) in enumerate(case['points']):
             sev, info = _solve_event(rec, eq, names, E, fed, gfun, T, P, key=k + 1,
                                      first=oi == 0, forced=False)
+            sev['form'], sev['listdiffers'] = fname, differs
             events.append(sev)
             infos.append(info)
             if oi == 0 and k == 0 and info['moles'] is not None:
@@ -280,7 +337,10 @@ def run(ctx):
     ctx.coverage['rule'] = (
         'a case is one network (species with NASA-7 thermodynamics, integer formulas over 1-4 of '
         'C/H/O/N) with one feed containing every element, solved at 1-2 (T, P) points under the '
-        'given and one permuted species order; tlc cases are the networks emitted by MC_EqCases.tla, '
+        'given order (model as a dict, or from_thermdat) and then through other accepted forms: '
+        'model as a list in an order different from the network keys, list in network order, list with '
+        'an extra species, network dict in other key orders (atoms are judged against the feed the '
+        'user stated, name -> amount); tlc cases are the networks emitted by MC_EqCases.tla, '
         'rand/wellcond cases are random (G/RT span <= 60, 300-2500 K, 0.01-100 atm), thermdat cases '
         'use the repository thermdat file at temperatures where its G/RT span is <= 60, beh cases '
         'are protocol behaviours of Equilibrium.tla; non-trivial = at least one solve converged '
@@ -341,6 +401,9 @@ def run(ctx):
         for c in th:
             c['points'] = _in_quantifier(c)
         cases += [c for c in th if c['points']]
+        for c in cases:
+            if c['kind'] != 'beh':
+                make_forms(c, rnd, full=not ctx.quick)
     import time as _time
     _t0 = _time.time()
     results = core.pmap(_safe_execute, cases)
@@ -355,6 +418,11 @@ def run(ctx):
         solved = [i for i in infos if i.get('out')]
         if any((i['out'] == 'converged' and i.get('k', 0) >= 1) or i['out'] == 'failed' for i in solved):
             ctx.nontrivial(_signature(case))
+        for i in infos:
+            if i.get('phase') == 'form':
+                ctx.count('objects_model_' + i['form'])
+                if i['listdiffers']:
+                    ctx.count('objects_model_list_in_other_order_than_network')
         for i in solved:
             ctx.count('solves')
             ctx.count('solves_' + i['out'])
@@ -392,7 +460,7 @@ def run(ctx):
             raise core.MachineryError('a harness witness/certificate did not verify: case %s line(s) %s'
                                       % (case['cid'], idxs[:5]))
         ev = traces[tid][1][idxs[0]]
-        tags = {'kind': case['kind'], 'phase': ev['ev']}
+        tags = {'kind': case['kind'], 'phase': ev['ev'], 'form': ev.get('form', '')}
         if ev['ev'] == 'solve':
             tags.update({'status': ev['status'], 'forced': ev['forced'], 'out': ev['out'], 'how': ev['how']})
         detail = {'event_indices': idxs[:10], 'species': len(case.get('species', case.get('names', []))),
@@ -415,6 +483,10 @@ def run(ctx):
         finally:
             os.unlink(path)
     if ctx.replay_case is None:
+        if ctx.coverage.get('objects_model_list_in_other_order_than_network', 0) < 30 \
+                or ctx.coverage.get('objects_model_dict', 0) < 30 or ctx.coverage.get('objects_model_thermdat', 0) < 2:
+            raise core.MachineryError('vacuous run: construction forms not exercised: %r'
+                                      % {k: v for k, v in ctx.coverage.items() if k.startswith('objects_')})
         if ctx.coverage.get('solves_wellconditioned', 0) < 10 or ctx.coverage.get('solves_converged', 0) < 50:
             raise core.MachineryError('vacuous run: too few converged / well-conditioned solves: %r'
                                       % {k: v for k, v in ctx.coverage.items() if k.startswith('solves')})
